@@ -278,7 +278,8 @@ func (s *seqState) applyBulkGet(op *Op, res *Result, loads []*loadRec) int {
 	if res.Err != wantErr {
 		m.fail(props, "ret.bulkget-err", -1, "BulkGet error %q, expected %q", res.Err, wantErr)
 	}
-	for k, v := range res.Map {
+	for _, k := range sortedKeys(res.Map) {
+		v := res.Map[k]
 		wv, ok := want[k]
 		if !ok {
 			m.fail(props, "bulk.result-extra", k, "BulkGet(%v) result contains key %d=%d which was neither cached nor supplied for a requested key (plan %+v)", op.Ks, k, v, plan)
@@ -286,7 +287,8 @@ func (s *seqState) applyBulkGet(op *Op, res *Result, loads []*loadRec) int {
 			m.fail(props, "bulk.result-value", k, "BulkGet result[%d]=%d, expected %d", k, v, wv)
 		}
 	}
-	for k, v := range want {
+	for _, k := range sortedKeys(want) {
+		v := want[k]
 		if _, ok := res.Map[k]; !ok {
 			m.fail(props, "bulk.result-missing", k, "BulkGet(%v) result lacks key %d (expected %d)", op.Ks, k, v)
 		}
@@ -425,7 +427,7 @@ func (s *seqState) applyBulkRefresh(op *Op, res *Result, loads []*loadRec) int {
 	for _, g := range res.Refresh {
 		got[g.K]++
 	}
-	for k := range seen {
+	for _, k := range sortedKeys(seen) {
 		if got[k] < 1 || (got[k] > 1 && !volunteered[k]) {
 			m.fail(props, "refresh.result-count", k, "BulkRefresh(%v) delivered %d results for requested key %d", op.Ks, got[k], k)
 		}
@@ -443,7 +445,8 @@ func (s *seqState) applyBulkRefresh(op *Op, res *Result, loads []*loadRec) int {
 			matched[g.K] = true
 		}
 	}
-	for k, w := range want {
+	for _, k := range sortedKeys(want) {
+		w := want[k]
 		if !matched[k] {
 			m.fail(props, "refresh.result", k, "BulkRefresh(%v) results %+v lack the expected result %+v", op.Ks, res.Refresh, w)
 		}
